@@ -301,7 +301,8 @@ Definition attachments_ok (a : obj) : bool :=
   | Some _ => false
   end.
 
-(* a reference with an id member and a matcher member: exactly one of them is set *)
+(* a reference with an id member and a matcher member: exactly one of them is set (a null reference is an absent one;
+   inside a list of references the reader wants every element: validate:"dive,required") *)
 Definition reference_ok (id matcher : str) (v : json) : bool :=
   match v with
   | JNull => true
@@ -316,7 +317,7 @@ Definition reference_ok (id matcher : str) (v : json) : bool :=
 Definition references_ok (required : bool) (k id matcher : str) (a : obj) : bool :=
   match olookup k a with
   | None | Some JNull => negb required
-  | Some (JArr l) => forallb (reference_ok id matcher) l
+  | Some (JArr l) => forallb (fun v => match v with JNull => false | _ => reference_ok id matcher v end) l
   | Some _ => false
   end.
 
